@@ -1,6 +1,7 @@
 import Driver.Util
 import Sqfs.Model.Path
 import Sqfs.Spec.HardLink
+import Sqfs.Model.TextParse
 namespace Driver.C07
 open Sqfs.HardLink
 
@@ -90,7 +91,102 @@ def hlSpec (toks : List String) : String :=
          | .escapes => "X")
       "spec" ++ String.join ((Tree.links t).map (fun n => " " ++ one n))
 
+/-! ### parser units -/
+section Parsers
+open Sqfs.ParseTotal
+
+def showR {α : Type} (f : α → String) : R α → String
+  | .ok a => "ok" ++ f a
+  | .fail c => "fail " ++ toString c
+  | .oob => "oob"
+  | .spin => "spin"
+
+def optLen (s : String) : Option (Option Nat) :=
+  if s = "-1" then some none else s.toNat?.map some
+
+def showSparse (l : List SparseEnt) : String :=
+  String.join (l.map (fun e => " " ++ toString e.offset ++ ":" ++ toString e.count))
+
+def showOptHex : Option (List UInt8) → String
+  | none => "~"
+  | some b => toHexTok b
+
+def showPax (o : PaxOut) : String :=
+  " flags=" ++ toString o.flags ++ " uid=" ++ toString o.uid ++ " gid=" ++ toString o.gid ++ " size=" ++ toString o.size ++
+  " actual=" ++ toString o.actual ++ " mtime=" ++ toString o.mtime ++ " name=" ++ showOptHex o.name ++
+  " link=" ++ showOptHex o.link ++ " sparse=[" ++ (showSparse o.sparse).trimAscii.toString ++ "] xattr=[" ++
+  (String.join (o.xattr.map (fun x => " " ++ toHexTok x.key ++ "=" ++ toHexTok x.value))).trimAscii.toString ++ "]"
+
+def parserStep : List String → Option String
+  | ["num", fx, h, d] => do
+    let buf ← fromHex h
+    let digits ← d.toNat?
+    pure (showR (fun v => " " ++ toString v) (readNumber (fx = "1") buf 0 digits))
+  | ["puint", base, len, wd, vmin, vmax, h] => do
+    let s ← fromHex h
+    let b ← base.toNat?
+    let l ← optLen len
+    let lo ← vmin.toNat?
+    let hi ← vmax.toNat?
+    pure (showR (fun (v : Nat × Nat) => " " ++ toString v.1 ++ " " ++ (if wd = "1" then toString v.2 else "-")) (parseU b (s ++ [0]) 0 l (wd = "1") lo hi))
+  | ["pint", len, wd, h] => do
+    let s ← fromHex h
+    let l ← optLen len
+    pure (showR (fun (v : Int × Nat) => " " ++ toString v.1 ++ " " ++ (if wd = "1" then toString v.2 else "-")) (parseI (s ++ [0]) 0 l (wd = "1")))
+  | ["hex", osz, h] => do
+    let s ← fromHex h
+    let o ← osz.toNat?
+    pure (showR (fun v => " " ++ toHexTok v) (hexDecode s 0 s.length o []))
+  | ["b64", cap, h] => do
+    let s ← fromHex h
+    let c ← cap.toNat?
+    pure (showR (fun v => " " ++ toHexTok v) (base64Decode s 0 s.length c))
+  | ["split", sep, len, h] => do
+    let s ← fromHex h
+    let sp ← fromHex sep
+    let l ← (if len = "-1" then some s.length else len.toNat?)
+    if l > s.length then none
+    else pure (match splitLine (s ++ [0]) l sp with
+      | .ok st => showR (fun toks => String.join (toks.map (fun t => " " ++ toHexTok t))) (slTokens st)
+      | .fail c => "fail " ++ toString c
+      | .oob => "oob"
+      | .spin => "spin")
+  | ["dfn", h] => do
+    let s ← fromHex h
+    pure (match decodeFilename (s ++ [0]) with
+      | .ok b => (match cstr b (b.length + 1) 0 with
+          | .ok name => (match Sqfs.Path.canonicalize name with
+              | some c => "ok " ++ toHexTok c
+              | none => "fail 4")
+          | _ => "oob")
+      | .fail c => "fail " ++ toString c
+      | .oob => "oob"
+      | .spin => "spin")
+  | ["xdec", h] => do
+    let s ← fromHex h
+    pure (showR (fun v => " " ++ toHexTok v) (xattrDecode (s ++ [0])))
+  | ["pax", fx, h] => do
+    let s ← fromHex h
+    pure (showR showPax (readPaxHeader (fx = "1") s))
+  | ["spnew", rs, h] => do
+    let s ← fromHex h
+    let r ← rs.toNat?
+    pure (showR (fun (v : List SparseEnt × Nat × List UInt8) => " " ++ toString v.2.1 ++ " " ++ toString v.2.2.length ++ showSparse v.1)
+      (readGnuNewSparse s r))
+  | ["spold", fx, hh, h] => do
+    let hdr ← fromHex hh
+    let s ← fromHex h
+    pure (match readGnuOldSparse (fx = "1") hdr s with
+      | .ok ([], _) => "fail"                 -- an empty map is `NULL`, which `read_header` takes for failure
+      | r => showR (fun (v : List SparseEnt × List UInt8) => " " ++ toString v.2.length ++ showSparse v.1) r)
+  | _ => none
+
+end Parsers
+
 def step (line : String) : String :=
+  match parserStep (words line) with
+  | some r => r
+  | none =>
   match words line with
   | "hl" :: toks => hlStep none toks
   | "hlspec" :: toks => hlSpec toks
